@@ -219,6 +219,11 @@ def pie_cases(ctx, quick):
                     abstract = abstract_items(version, resp, base_items, True)
                     oracle(ctx, op, version, 'mangled-' + mlabel, False, abstract, None, out,
                            witness={'response_hex': resp.response_bytes.hex()})
+                    if op.name == 'get' and abstract and abstract[0]['status'] == 0 and abstract[0]['payload'] is not None:
+                        # a corrupted-yet-decodable managed object: whether the Pie object model can represent it
+                        # (ObjectFactory.convert / object validation) is C05's subject, not modelled here
+                        ctx.count('pie.mangled-%s.get-success-not-compared' % mlabel)
+                        continue
                     cases.append('(CPie %s %s %s)' % (op.model, D.resp_coq(abstract), D.outcome_coq(out)))
                     meta.append((op.name, version.name, 'mangled-' + mlabel, D.outcome_plain(out)))
                     ctx.count('pie.mangled-%s.%s.%s' % (mlabel, 'undecodable' if abstract is None else 'decodable', out[0]))
@@ -585,6 +590,57 @@ def server_cases(ctx, quick):
     return cases, meta
 
 
+# ---------------------------------------------------------------------- request envelope
+KVER = {KV.KMIP_1_0: 'Request.V10', KV.KMIP_1_1: 'Request.V11', KV.KMIP_1_2: 'Request.V12', KV.KMIP_1_3: 'Request.V13',
+        KV.KMIP_1_4: 'Request.V14', KV.KMIP_2_0: 'Request.V20'}
+
+
+def payload_body(req):
+    """The bytes inside the Request Payload structure of a one-item request (independent TTLV walk)."""
+    def item(b, off):
+        tag = int.from_bytes(b[off:off + 3], 'big')
+        ln = int.from_bytes(b[off + 4:off + 8], 'big')
+        return tag, b[off + 3], ln, off + 8
+    tag, ty, ln, o = item(req, 0)                   # request message
+    tag, ty, hl, o2 = item(req, o)                  # request header
+    o = o2 + hl
+    tag, ty, bl, o = item(req, o)                   # batch item
+    end = o + bl
+    while o < end:
+        tag, ty, ln, o2 = item(req, o)
+        if tag == 0x420079:
+            return req[o2:o2 + ln]
+        o = o2 + ln + (-ln % 8)
+    return None
+
+
+def request_cases(ctx, quick):
+    rng = ctx.subrng('requests')
+    cases, meta = [], []
+    for op in D.OPS:
+        for version in D.VERSIONS:
+            if op.min_version is not None and version < op.min_version:
+                continue
+            for attempt in range(6):
+                kwargs = op.args(rng, version)
+                out, resp, sock = scripted_call(op, version, kwargs, items=[Item(RS.OPERATION_FAILED, RR.GENERAL_FAILURE, 'x')])
+                if sock.sent:
+                    break
+            else:
+                continue
+            req = sock.sent[0]
+            body = payload_body(req)
+            if body is None:
+                ctx.violation({'client': 'pie', 'op': op.name, 'what': 'request-without-payload', 'version': version.name},
+                              {'method': op.name, 'request_hex': req.hex()}, '%s emitted a request without a request payload' % op.name)
+                continue
+            cases.append('(CReq %s %s %s %s)' % (KVER[version], D.cp.z(op.code.value), D.cp.byts(body), D.cp.byts(req)))
+            meta.append((op.name, version.name, req.hex()))
+            ctx.count('request.envelope.%s' % version.name)
+            ctx.case_seen(('req', op.name, version.name, req), nontrivial=True)
+    return cases, meta
+
+
 def load_own_findings(ctx):
     """known_findings.json is merged by bin/mkmanifest; until then (and afterwards, harmlessly) read findings.d/C19.json too."""
     import json
@@ -626,6 +682,12 @@ def run(ctx):
     for i in bad[:20]:
         ctx.log('proxy disagreement', pmeta[i], pcases[i][:700])
         ctx.disagreement('proxy', {'case': pmeta[i], 'coq': pcases[i][:600]})
+    rcases, rmeta = request_cases(ctx, quick)
+    bad = ctx.run_cases('requests', HEADER, rcases, 'check_ccase', shard=40,
+                        what='Request.enc_request / dec_request vs the bytes ProxyKmipClient emits (envelope; payload body opaque)')
+    for i in bad[:20]:
+        ctx.log('request disagreement', rmeta[i][:2])
+        ctx.disagreement('requests', {'case': rmeta[i]})
     scases, smeta = server_cases(ctx, quick)
     bad = ctx.run_cases('server', HEADER, scases, 'check_ccase', what='Client.interpret vs ProxyKmipClient methods against the real KmipSession + KmipEngine')
     for i in bad[:20]:
